@@ -1951,6 +1951,16 @@ func (k *Kernel) handleReplayedHeader(
 	}
 	valSet := s.Voting.ValidatorSet
 
+	// Above the initial height, the replayed header must extend the header we are committing.
+	if h > k.initialHeight && !bytes.Equal(header.PrevBlockHash, s.CommittingHeader.Hash) {
+		return tmelink.ReplayedHeaderValidationError{
+			Err: fmt.Errorf(
+				"replayed header's previous block hash (%x) differs from committing header's hash (%x)",
+				header.PrevBlockHash, s.CommittingHeader.Hash,
+			),
+		}
+	}
+
 	// We might have a valid header.
 	// Confirm the hash first,
 	// under the assumption that it is cheaper to validate the hash than the signatures.
